@@ -373,14 +373,19 @@ def step (d : DState) (line : String) : DState × String :=
         let straddles : Bool := deadlineIn now0 now1 || decide (now0 / 1000000000 != now1 / 1000000000)
         let lowStraddles : Bool := deadlineIn (now0 - slack) (now0 - 1)
         let oA := dispatch ctx0 d.st c argv
-        let fits (o : Out) : Bool := match implV with
-          | some g => o.crash.isNone && (!o.judged || replyMatches o.hint o.reply g)
+        -- a reply the model does not determine (`.custom`) is checked by its validator at the candidate instant
+        let okCustomAt (t : Int) (o : Out) (g : Value) : Bool := match o.hint with
+          | .custom "hello" => validate "hello" { ctx0 with now := t } o.st c argv g
+          | .custom nm => validate nm { ctx0 with now := t } d.st c argv g
+          | _ => true
+        let fitsAt (t : Int) (o : Out) : Bool := match implV with
+          | some g => o.crash.isNone && (!o.judged || (replyMatches o.hint o.reply g && okCustomAt t o g))
           | none => o.crash.isSome
         let cands : List (Int × Out) :=
           [(now0, oA)] ++
           (if straddles then [(now1, dispatch { ctx0 with now := now1 } d.st c argv)] else []) ++
           (if lowStraddles then [(now0 - slack - 1, dispatch { ctx0 with now := now0 - slack - 1 } d.st c argv)] else [])
-        let good := cands.filter fun (_, o) => fits o
+        let good := cands.filter fun (t, o) => fitsAt t o
         let timing := straddles || lowStraddles
         -- near a deadline the outcome may depend on which side of it the implementation's clock reading
         -- fell: when no instant explains the reply, or two do with different resulting states, the
